@@ -1704,6 +1704,7 @@ func (w *walker) uninterpreted(s *state, fr *frame, instr ssa.CallInstruction, a
 	}
 	// hash.Hash.Sum(b) appends to b: with b = x[:0] the digest lands in x
 	ct := mk(name, cargs...)
+
 	if strings.HasSuffix(name, ".Sum") && len(all) == 2 {
 		ct = mk("Sum", s.content(all[0]))
 		if all[1].Op == "ref" {
